@@ -30,6 +30,8 @@ func checkC04(c *Ctx, r *Report) {
 	c04R4b(c, r)
 	c04R5(c, r)
 	c04R5b(c, r)
+	c04WholeMessage(c, r)
+	c04FreshMap(c, r)
 }
 
 // c04R4b: the map accessors index with the key they are given (no normalisation inside find/insert).
